@@ -222,13 +222,19 @@ pub fn run_chunked(total: usize, chunk: usize) -> (Vec<serde_json::Value>, Vec<u
             match k {
                 Some(k) if k >= job.0 && k < job.1 && !job.2.contains(&k) => {
                     aborted.push(k);
-                    let mut skip = job.2.clone();
-                    skip.push(k);
-                    if skip.len() > 400 {
+                    if aborted.len() > 20_000 {
                         eprintln!("chunk {}..{}: too many aborts (machinery error)", job.0, job.1);
                         std::process::exit(2);
                     }
-                    queue.push_back((job.0, job.1, skip));
+                    // the process died at item k before it could report: re-run the part before k
+                    // (which is known to finish) and the part after k as two jobs, instead of the
+                    // whole chunk again with k skipped (quadratic in the number of aborts per chunk)
+                    if k > job.0 {
+                        queue.push_front((job.0, k, job.2.clone()));
+                    }
+                    if k + 1 < job.1 {
+                        queue.push_front((k + 1, job.1, job.2.clone()));
+                    }
                 }
                 _ => {
                     eprintln!("chunk {}..{} died with {st:?} without usable progress (machinery error)", job.0, job.1);
